@@ -2,12 +2,16 @@ package main
 
 import (
 	"bufio"
+	"bytes"
+	"encoding/json"
 	"fmt"
 	"os"
 	"os/exec"
 	"path/filepath"
+	"runtime"
 	"sort"
 	"strings"
+	"sync"
 )
 
 // Self-test of the thorough tier: every seeded change kept for this property under
@@ -96,7 +100,7 @@ func runSelfTest(vdir, id, tier string, f checker) []selfResult {
 	return runVariants(vdir, id, dirs, f)
 }
 
-func runVariants(vdir, id string, dirs []string, f checker) []selfResult {
+func runVariantsSerial(vdir, id string, dirs []string, f checker) []selfResult {
 	var out []selfResult
 	for _, d := range dirs {
 		res := selfResult{Seed: filepath.Base(d)}
@@ -150,6 +154,65 @@ func runVariants(vdir, id string, dirs []string, f checker) []selfResult {
 		}
 		res.Killed = extra > 0
 		out = append(out, res)
+	}
+	return out
+}
+
+// runVariants evaluates the variants in child processes of this same binary (hidden flag -variant), a few at a
+// time: the rule code keeps per-run state in package-level variables, so variants are not run concurrently in one
+// process; a child loads the tree with one overlay, checks one property and prints its selfResult as JSON.
+// A child that cannot be started or does not answer is evaluated in this process instead.
+func runVariants(vdir, id string, dirs []string, f checker) []selfResult {
+	workers := runtime.NumCPU() / 3
+	if workers < 1 {
+		workers = 1
+	}
+	if workers > 6 {
+		workers = 6
+	}
+	if os.Getenv("LOGGCHECK_SERIAL") != "" || len(dirs) < 2 {
+		return runVariantsSerial(vdir, id, dirs, f)
+	}
+	self, err := os.Executable()
+	if err != nil {
+		return runVariantsSerial(vdir, id, dirs, f)
+	}
+	out := make([]selfResult, len(dirs))
+	done := make([]bool, len(dirs))
+	var wg sync.WaitGroup
+	sem := make(chan struct{}, workers)
+	for i, d := range dirs {
+		wg.Add(1)
+		go func(i int, d string) {
+			defer wg.Done()
+			sem <- struct{}{}
+			defer func() { <-sem }()
+			cmd := exec.Command(self, "-property", id, "-variant", d, "-verif", vdir, "-repo", repoDir)
+			cmd.Env = append(os.Environ(), "LOGGCHECK_SERIAL=1")
+			b, err := cmd.Output()
+			if err != nil && len(b) == 0 {
+				return
+			}
+			var res selfResult
+			idx := bytes.LastIndex(b, []byte("VARIANT-RESULT "))
+			if idx < 0 {
+				return
+			}
+			line := b[idx+len("VARIANT-RESULT "):]
+			if nl := bytes.IndexByte(line, '\n'); nl >= 0 {
+				line = line[:nl]
+			}
+			if json.Unmarshal(line, &res) == nil {
+				out[i], done[i] = res, true
+			}
+		}(i, d)
+	}
+	wg.Wait()
+	for i, d := range dirs {
+		if !done[i] {
+			r := runVariantsSerial(vdir, id, []string{d}, f)
+			out[i] = r[0]
+		}
 	}
 	return out
 }
